@@ -110,9 +110,13 @@ bool DyndepLoader::UpdateEdge(Edge* edge, Dyndeps const* dyndeps,
                        dyndeps->implicit_inputs_.end());
   edge->implicit_deps_ += dyndeps->implicit_inputs_.size();
 
-  // Add this edge as outgoing from each new input.
-  for (Node* node : dyndeps->implicit_inputs_)
+  // Add this edge as outgoing from each new input.  Like an input written in
+  // the manifest, and unlike a depfile header, a dyndep-discovered input that
+  // is missing and has no rule to make it is an error.
+  for (Node* node : dyndeps->implicit_inputs_) {
     node->AddOutEdge(edge);
+    node->set_generated_by_dep_loader(false);
+  }
 
   return true;
 }
